@@ -487,7 +487,10 @@ def shrink(c):
     def still(cand, key):
         f = failing(cand)
         return f is not None and f[0] == key
-    key = failing(c)[0]
+    f0 = failing(c)
+    if f0 is None:          # the failure does not reproduce on re-evaluation (the real result differs between identical calls)
+        return c
+    key = f0[0]
     if c["kind"] == "blur":
         for n in range(c["T"]):
             cand = dict(best, T=1, frames=[c["frames"][n]], cond=[c["cond"][n]])
@@ -541,11 +544,12 @@ def search(run, broken):
     found = {}
     for c, (st, key, why) in zip(pool, res):
         if st == "bad" and key not in found:
-            found[key] = c
+            found[key] = (c, why)
     funcs_found = set()
-    for key, c in found.items():
+    for key, (c, why) in found.items():
         c2 = shrink(c)
-        f = failing(c2) or failing(c)
+        f = failing(c2) or failing(c) or (key, why + "  [evaluating the same input again did not reproduce this value: the real routine's "
+                                          "result differs between identical calls]")
         run.violation(f[0], f[1], {"case": c2})
         funcs_found.add(func_of(c))
     run.coverage["search_cases"] = len(pool)
